@@ -123,7 +123,7 @@ package newick
 //@   flag noframe
 //@   flag countcalls
 //@   requires pw(p) && t != nil && level != nil
-//@   call errors.New@L1 [a_comment_is_refused_only_where_no_node_or_branch_can_take_it_after_a_name_a_number_a_parenthesis_or_a_comment_the_node_takes_it] ghost(ncalls_consumeComment) > atHead(ghost(ncalls_consumeComment)) ==> prevTok != STARTLEN && !((prevTok == CLOSEPAR || prevTok == IDENT || prevTok == NUMERIC || prevTok == CLOSEBRACK) && node != nil)
+//@   call errors.New@L1 [a_comment_is_refused_only_where_no_node_or_branch_can_take_it_after_a_name_a_number_a_parenthesis_or_a_comment_the_node_takes_it] ghost(ncalls_consumeComment) > atHead(ghost(ncalls_consumeComment)) ==> !(prevTok == STARTLEN && (edge != nil || node != nil)) && !((prevTok == CLOSEPAR || prevTok == IDENT || prevTok == NUMERIC || prevTok == CLOSEBRACK) && node != nil)
 //@   call (*tree.Edge).AddComment [a_comment_right_after_a_length_belongs_to_the_branch] a0 == edge && a1 == comment && prevTok == STARTLEN
 //@   call (*tree.Node).AddComment [every_other_accepted_comment_belongs_to_the_current_node_whole] a0 == node && a1 == comment
 //@   ensures [well_formed] pw(p)
